@@ -117,6 +117,8 @@ impl MemoryAreas {
   }
 
   pub fn run_clock_cycles(&mut self, cycles: ClockCycles) {
+    // Clock cycles that have not been passed on to the devices yet
+    let mut io_cycles = cycles.as_usize();
     // If a DMA is currently active, it updates with the rest of the memory bus
     // One byte is copied on each machine cycle. This will copy at most that
     // many bytes (or fewer, if the DMA completes before then).
@@ -136,6 +138,12 @@ impl MemoryAreas {
         let dest = 0xfe00 + current_offset as u16;
         memory_write_byte(self as *mut MemoryAreas, dest, value);
 
+        // Each byte is read at its own machine cycle: the devices catch up
+        // with that cycle before the next byte is read, so that a source in
+        // the I/O area (LY, STAT, DIV...) does not depend on the batch size.
+        self.io.run_clock_cycles(ClockCycles::new(4), &self.video_ram, &self.oam_ram);
+        io_cycles -= 4;
+
         bytes_to_copy -= 1;
         current_offset += 1;
       }
@@ -151,7 +159,7 @@ impl MemoryAreas {
       }
     }
 
-    self.io.run_clock_cycles(cycles, &self.video_ram, &self.oam_ram);
+    self.io.run_clock_cycles(ClockCycles::new(io_cycles), &self.video_ram, &self.oam_ram);
   }
 }
 
